@@ -158,7 +158,12 @@ def parse_message(
 
     # For backward compatibility, try to parse with JSONRPCMessage first
     try:
-        return JSONRPCMessage.model_validate(data)  # type: ignore[attr-defined]
+        message = JSONRPCMessage.model_validate(data)  # type: ignore[attr-defined]
+        # An object with neither a method nor an id is no JSON-RPC message at all
+        # (every member of the unified type is optional): fall through to the
+        # strict checks below, which reject it.
+        if message.method is not None or message.id is not None:
+            return message
     except Exception:
         pass
 
